@@ -29,6 +29,7 @@ struct Rec {
   std::vector<BatchRec> batches;
   std::map<string, int> by_marker;
   std::vector<std::vector<int>> per_thread_ops;   // indices into p->ops
+  std::vector<size_t> incarnations;               // journal positions at which the database was closed and opened again
   string dir = "/sim/db";
 };
 Rec *g_rec = nullptr;
@@ -61,6 +62,7 @@ void writer_thread(void *arg) {
       case O_GET: { string v; db_get(R.db, o.key, &v, nullptr, 0, 1); break; }
       case O_REOPEN: {
         ldb_close(R.db); R.db = nullptr;
+        R.incarnations.push_back(R.journal.e.size());
         R.opt->set(R.p->cfg, true);
         int rc = ldb_open(R.dir.c_str(), &R.opt->o, &R.db);
         if (rc) { violation("C05", "open_failed", "clean reopen failed: %s", rcname(rc)); R.db = nullptr; return; }
@@ -107,10 +109,23 @@ struct Judge {
     }
   }
 
+  // The process that recovers need not run with the options of the one that died: on half of the images the write
+  // buffer is the smallest legal one (a log written under a larger buffer is then flushed in several pieces while it
+  // is replayed), and log reuse, mmap and the table-cache size are flipped independently.
+  Config recovery_config(const ImageCase &ic, int paranoid) {
+    Config c = p.cfg; c.paranoid = paranoid;
+    uint64_t h = mix64(ic.spec.seed, 0x0F710);
+    if (h & 1) { c.wbs = 65536; probe("recovery_with_smallest_write_buffer"); }
+    if ((h >> 1) % 4 == 0) c.reuse = !c.reuse;
+    if ((h >> 3) % 4 == 0) c.mmap = !c.mmap;
+    if ((h >> 5) % 4 == 0) c.mof = c.mof == 74 ? 1000 : 74;
+    return c;
+  }
+
   // Opens the image directory, scans it and judges the contents.  Returns false on violation.
   bool open_and_judge(const string &dir, const ImageCase &ic, int paranoid, const std::set<int> &required, const std::set<int> &allowed,
                       std::set<int> *S_out, Contents *got_out, ldb_t **db_out, DbOptions &opt, const char *stage, bool audit = false) {
-    Config c = p.cfg; c.paranoid = paranoid;
+    Config c = recovery_config(ic, paranoid);
     opt.set(c, true);
     ldb_t *db = nullptr;
     const char *fam = ic.family;
@@ -278,7 +293,7 @@ struct Judge {
 
   bool open_and_judge_nested(const string &dir, const ImageCase &ic, int paranoid, const std::set<int> &required, const std::set<int> &allowed, DbOptions &opt, const std::set<int> &first_recovery) {
     // the follow-up batch (if its record reached the image) is tolerated: strip it before judging
-    Config c = p.cfg; c.paranoid = paranoid;
+    Config c = recovery_config(ic, paranoid);
     opt.set(c, true);
     ldb_t *db = nullptr;
     int rc = ldb_open(dir.c_str(), &opt.o, &db);
@@ -357,13 +372,18 @@ Plan gen_crash(uint64_t seed, const string &prop) {
   Plan p;
   p.mode = "crash"; p.seed = seed;
   p.cfg = random_config(r);
-  if (r.chance(0.8)) p.cfg.wbs = 65536;
+  if (r.chance(0.6)) p.cfg.wbs = 65536;
   p.cfg.cmp = 0;
   int nthreads = r.chance(0.55) ? 1 : (int)r.range(2, 3);
+  // C13 flavour (two runs in three): the file-set rules look at the session itself, so make it eventful - several
+  // writers filling 64 KiB write buffers while another caller compacts - and spend less on crash images
+  bool c13 = prop == "C13" && r.chance(0.67);
+  if (c13) { nthreads = (int)r.range(2, 3); p.cfg.wbs = 65536; }
   p.sc = random_sched(r, nthreads > 1);
   p.params["prop"] = prop;
   p.seti("threads", nthreads);
   int sizeclass = (int)r.below(10);
+  if (c13 && sizeclass < 4) sizeclass = 4 + (int)r.below(6);
   int nops = sizeclass < 4 ? (int)r.range(3, 10) : sizeclass < 9 ? (int)r.range(12, 45) : (int)r.range(60, 110);
   double sync_rate = r.chance(0.3) ? 0.0 : r.chance(0.5) ? 0.25 : 0.7;
   if (prop == "C02") sync_rate = std::max(sync_rate, 0.25);
@@ -374,6 +394,7 @@ Plan gen_crash(uint64_t seed, const string &prop) {
   for (int i = 0; i < nops; i++) {
     Op o; o.tid = (int)r.below(nthreads);
     int c = (int)r.below(100);
+    if (c13 && c >= 60 && c < 74) c = 84 + (int)r.below(9); // more manual compactions
     if (c < 74) {
       o.kind = O_WRITE;
       Upd m; m.key = marker_key(o.tid, nmark[o.tid]++); m.tag = tag++; m.len = 8; o.ups.push_back(m);
@@ -383,7 +404,7 @@ Plan gen_crash(uint64_t seed, const string &prop) {
       for (int q = 0; q < n; q++) {
         Upd u; char kb[48]; snprintf(kb, sizeof kb, "w%d/k%03d", o.tid, (int)r.below(big && n > 100 ? 400 : nkeys)); u.key = kb;
         u.del = r.chance(0.2);
-        if (!u.del) { u.tag = tag++; u.fill = (int)r.below(2); int lc = (int)r.below(100); u.len = n > 100 ? (uint32_t)r.range(0, 120) : lc < 5 ? 0 : lc < 80 ? (uint32_t)r.range(100, 3000) : (big || lc >= 95) ? (uint32_t)r.range(20000, 90000) : (uint32_t)r.range(3000, 9000); }
+        if (!u.del) { u.tag = tag++; u.fill = (int)r.below(2); int lc = (int)r.below(100); u.len = n > 100 ? (uint32_t)r.range(0, 120) : lc < 5 ? 0 : lc < (c13 ? 40 : 80) ? (uint32_t)r.range(100, 3000) : (big || lc >= 95) ? (uint32_t)r.range(20000, 90000) : (uint32_t)r.range(3000, 9000); }
         o.ups.push_back(u);
       }
       o.sync = r.chance(sync_rate);
@@ -394,7 +415,7 @@ Plan gen_crash(uint64_t seed, const string &prop) {
     else { o.kind = O_GET; char kb[48]; snprintf(kb, sizeof kb, "w%d/k%03d", o.tid, (int)r.below(nkeys)); o.key = kb; }
     p.ops.push_back(o);
   }
-  p.seti("max_boundaries", g_thorough ? 1500 : sizeclass < 4 ? 400 : 260);
+  p.seti("max_boundaries", c13 ? (g_thorough ? 300 : 100) : g_thorough ? 1500 : sizeclass < 4 ? 400 : 260);
   return p;
 }
 
@@ -436,6 +457,13 @@ void exec_crash(const Plan &p, RunOut *out) {
     for (auto &e : R.journal.e) if (e.t == simfs::J_CREATE && simfs::classify(e.a) == simfs::FC_LOG) logs++;
     had_rotation = logs >= 2;
     if (!failed()) decode_logs(R);
+    if (!failed()) {
+      // C13 on the recorded session itself: no file number used twice, no log unlinked before a version edit with a
+      // higher log number has been written (this needs no crash at the right instant to show)
+      FileMonitor mon; size_t pos = 0;
+      for (size_t b : R.incarnations) { mon.scan(R.journal, &pos, {}, b); mon.created.clear(); }
+      mon.scan(R.journal, &pos, {});
+    }
     uint64_t images0 = out->counts["images"];
     if (!failed()) {
       Judge J(R, p);
